@@ -189,6 +189,25 @@ type Writer struct {
 	mu  sync.Mutex
 	f   *os.File
 	seq int64
+	// flooded: more than MaxRecords were written. A run like that (a node
+	// spinning on something) is judged by its convergence verdict alone; only
+	// the records that carry it are written from then on, so that neither the
+	// scratch space (memory, on tmpfs) nor the reader is overrun.
+	flooded bool
+}
+
+// MaxRecords is the number of records after which a Writer keeps only the
+// records listed in AfterFlood (about sixty times an average run).
+const MaxRecords = 1500000
+
+// AfterFlood tells whether records of kind k are still written (and read)
+// after the flood mark.
+func AfterFlood(k string) bool {
+	switch k {
+	case "tick", "faults-stopped", "converged", "converged-late", "not-converged", "end", "harness-error", "event-flood":
+		return true
+	}
+	return false
 }
 
 // NewWriter creates path.
@@ -211,6 +230,16 @@ func (w *Writer) Emit(r *Rec, fn func(seq int64)) int64 {
 	if fn != nil {
 		fn(w.seq)
 	}
+	if w.flooded && !AfterFlood(r.K) {
+		return w.seq
+	}
+	if !w.flooded && w.seq > MaxRecords {
+		w.flooded = true
+		_, _ = w.f.Write([]byte(fmt.Sprintf(`{"q":%d,"k":"event-flood"}`+"\n", w.seq)))
+		if !AfterFlood(r.K) {
+			return w.seq
+		}
+	}
 	b, err := json.Marshal(r)
 	if err != nil {
 		b = []byte(fmt.Sprintf(`{"q":%d,"k":"marshal-error","err":%q}`, w.seq, err.Error()))
@@ -232,6 +261,35 @@ func (w *Writer) Close() error {
 	w.mu.Lock()
 	defer w.mu.Unlock()
 	return w.f.Close()
+}
+
+// Scan calls fn for every complete record of path, in order, without
+// holding more than one in memory. A truncated last line is ignored.
+func Scan(path string, fn func(*Rec)) (int, error) {
+	f, err := os.Open(path)
+	if err != nil {
+		return 0, err
+	}
+	defer f.Close()
+	n := 0
+	br := bufio.NewReaderSize(f, 1<<20)
+	for {
+		line, err := br.ReadBytes('\n')
+		if len(line) > 0 && line[len(line)-1] == '\n' {
+			r := &Rec{}
+			if e := json.Unmarshal(line, r); e == nil {
+				n++
+				fn(r)
+			}
+		}
+		if err == io.EOF {
+			break
+		}
+		if err != nil {
+			return n, err
+		}
+	}
+	return n, nil
 }
 
 // ReadFile reads all complete records of path. A truncated last line
